@@ -96,6 +96,8 @@ EDGE_ATOMS = (
     ("float", "the {n}", ABSENT), ("Optional[float]", "the {n}", ABSENT), ("str", "the {n}", "it's"), ("Optional[List[str]]", "the {n}", None),
     ("Union[int, float]", "the {n}", 2.5), ("Tuple[int, int]", "the {n}", "```(1, 2)```"), ("List[int]", "the {n}", "```[16, 32]```"),
     ("List[int]", "the {n}", "```n```"), ("int", "Optional {n} of the run", 3),
+    # prose that wraps, with hyphenated words wherever the break may fall (at every docstring indentation)
+    ("int", "the {n} of a multi-layer feed-forward high-level well-known state-of-the-art trade-off in a long-running fine-grained multi-layer feed-forward high-level set-up", 3),
 )
 
 
